@@ -213,7 +213,7 @@ def run(ck, tier, seed):
     _validate(ck, tmp, exe, "arrangements", _arrangements(ck, tier, seed, tmp), rng, True)
     _validate(ck, tmp, exe, "awami", _awami(tier), rng, False)
     ck.assumptions += [
-        "'within reach of its limit rectangle' is read as: the neighbour's bounding box meets the limit rectangle placed at the glyph's anchor; overlaps with neighbours outside that reach are counted under informational_overlaps_with_neighbours_out_of_reach and are not violations",
+        "'within reach of its limit rectangle' is read as: the neighbour's bounding box lies in the column or in the row of the limit rectangle placed at the glyph's anchor (no margin added); overlaps with neighbours outside that reach are counted under informational_overlaps_with_neighbours_out_of_reach and are not violations",
         "left-to-right steps with x-asymmetric limits are outside the property's quantifier (DESIGN.md section 7, F3) and carry no obligation",
         "overlap means a common region wider than 1.5 font units in every direction; coordinates are validated at 1/16 unit resolution",
         "only neighbours that Pass::resolveCollisions hands to the collider are obliged (the property's 'non-ignored neighbour'); exclusion glyphs and sequence constraints are not judged",
